@@ -102,6 +102,10 @@ func payloadMutator(devs map[string]bool) func([]byte) []byte {
 			renameKey(top, "targetArtifact", "TargetArtifact")
 		}
 		out, _ := json.Marshal(top)
+		if devs["payloadTrailing"] {
+			// the requested payload followed by something else: not the requested payload
+			out = append(out, []byte(` {"targetArtifact":{"mediaType":"x","digest":"sha256:00","size":1}}`)...)
+		}
 		return out
 	}
 }
